@@ -684,6 +684,33 @@ def _len_aliases(body):
     return cls
 
 
+def r03_26(run, model):
+    run.rule("R03.26", "a node is stamped with the expected type only where its type *is* a child's type: every arm of check_expr that builds "
+                       "a node with `ty: expected.clone()` hands `expected` itself to the check of a value-producing child (operands of a numeric "
+                       "operator, branches of if / match); a composite form (tuple, array, closure, struct literal) is typed from its parts and "
+                       "meets the expectation in the trailing TypeEqual - stamping it skips the comparison of length / arity / components")
+    CHECK = "crates/compiler/src/typer/check.rs"
+    f = model.fn("check_expr", CHECK)
+    g = model.inlined_fn(f)
+    n = 0
+    for m in S.find(g.body, "Match"):
+        for arm in m["arms"]:
+            stamps = [st for st in S.find(arm["body"], "Struct")
+                      if any(fl.get("name") == "ty" and S.norm_ws(run.facts.text(CHECK, fl["expr"]["sp"])).replace(" ", "") in ("expected.clone()", "expected.to_owned()")
+                             for fl in st.get("fields", []))]
+            if not stamps:
+                continue
+            n += 1
+            hands = [c for c in S.walk(arm["body"]) if c["k"] in ("MethodCall", "Call") and S.callee_name(c) in ("check_expr", "check_block_expr", "check_expr_with_expectation")
+                     and c["args"] and any(S.is_path(S.strip_refs_expr(a) if hasattr(S, "strip_refs_expr") else (a["expr"] if a["k"] == "Ref" else a), "expected") for a in c["args"])]
+            form = stamps[0]["segs"][-1]
+            run.ob("R03.26", f"check_expr|{form} stamped with the expected type takes it from a child checked against it", bool(hands), site(CHECK, stamps[0]["sp"]),
+                   f"{len(hands)} child check(s) against `expected` in the arm" if hands else "no child of this form is checked against `expected`: the stamp replaces the comparison",
+                   witness="let a: [int32; 2] = [1, 2, 3]; - an array literal checked against [int32; 2] is stamped [int32; 2] without its item count "
+                           "being compared: accepted, Go `[2]int32{1, 2, 3}`")
+    run.floor("arms of check_expr that stamp the expected type", n, 4)
+
+
 def r03_25(run, model):
     run.rule("R03.25", "a position found by searching one list indexes that list only: where the compiler obtains an index from "
                        "`.position(..)` / `.rposition(..)` on a list, every `.get(i)` / `[i]` with that index is applied to the same list - "
@@ -1324,6 +1351,7 @@ def run(run, model):
     # a field read through a sequentially instantiated definition gets another parameter's type: the typer accepts `p.fst + 1` on a string
     run.try_rule(c07.r07_17, model)
     run.try_rule(r03_25, model)
+    run.try_rule(r03_26, model)
     from rules import c08
     run.try_rule(c08.r08_1, model)
     run.try_rule(c08.r08_2, model)
